@@ -65,7 +65,7 @@ def helpers_src(case, suf):
     rl = gl + [g.replace("@", suf) for g in case.get("restore", [])]
     out = []
     for g in rl:
-        out.append("unsigned char vf_sh_%s[256];" % g)
+        out.append("unsigned char vf_sh_%s[sizeof(%s)];" % (g, g))
     save = "".join(" { unsigned char *s=(unsigned char*)&%s; unsigned long i; for(i=0;i<sizeof(%s);i++) vf_sh_%s[i]=s[i]; }" % (g, g, g) for g in rl)
     rest = "".join(" { unsigned char *s=(unsigned char*)&%s; unsigned long i; for(i=0;i<sizeof(%s);i++) s[i]=vf_sh_%s[i]; }" % (g, g, g) for g in rl)
     out.append("void vf_save%s(void){%s }" % (suf, save))
@@ -185,13 +185,18 @@ def run_path_b(cases, idxs, level, d, tag):
     r = subprocess.run(["gcc", "-O0", "-w", "-no-pie", "-o", exe, drv] + objs, capture_output=True, text=True)
     if r.returncode != 0:
         return None, dict(failed, link=("link", r.stderr[-300:])), good
-    r = subprocess.run([exe], stdout=subprocess.PIPE, stderr=subprocess.STDOUT, text=True, errors="replace", timeout=120)
+    try:
+        r = subprocess.run([exe], stdout=subprocess.PIPE, stderr=subprocess.STDOUT, timeout=120)
+        out = r.stdout.decode("latin-1")
+    except subprocess.TimeoutExpired as e:
+        # the functions after the one that does not return produce no result line; judge() reports them as such
+        out = (e.stdout or b"").decode("latin-1") + "\nTIMEOUT\n"
     for p in objs + [drv, exe]:
         try:
             os.unlink(p)
         except OSError:
             pass
-    return r.stdout, failed, good
+    return out, failed, good
 
 
 def driver_a(cases, idxs, oracle):
